@@ -212,7 +212,7 @@ func NewEnv(tr *Trace, sc *Scenario, workdir string) *Env {
 		pls:   map[int]segment.PostingsList{}, its: map[int]segment.PostingsIterator{},
 		dvrs:  map[int]segment.DocumentValueReader{}, bms: map[int]*roaring.Bitmap{},
 		objIDs: map[interface{}]int{}, nextObj: 1000000,
-		watchdog: 20 * time.Second, cov: map[string]int{}, itFlags: map[int]itFlags{}, docnums: map[int][][]int{}, dvrSeg: map[int]int{}, sawBlocked: new(bool)}
+		watchdog: 20 * time.Second * time.Duration(watchdogScale()), cov: map[string]int{}, itFlags: map[int]itFlags{}, docnums: map[int][][]int{}, dvrSeg: map[int]int{}, sawBlocked: new(bool)}
 }
 
 func (e *Env) Close() {
@@ -244,6 +244,16 @@ func (e *Env) call(fn func()) string {
 		}
 		return "blocked"
 	}
+}
+
+// watchdogScale lets the driver re-run a scenario with generous timeouts (a "blocked" verdict must
+// survive a re-run in isolation before it counts; CPU starvation is not a violation)
+func watchdogScale() int {
+	var v int
+	if _, err := fmt.Sscan(os.Getenv("VERIF_WATCHDOG_SCALE"), &v); err == nil && v > 0 {
+		return v
+	}
+	return 1
 }
 
 func runRecover(fn func()) (res string) {
@@ -434,7 +444,7 @@ func (e *Env) Do(op *Op) {
 	case "persist_fail":
 		e.doPersistFail(op)
 	case "watchdog":
-		e.watchdog = time.Duration(op.Watchdog) * time.Millisecond
+		e.watchdog = time.Duration(op.Watchdog) * time.Millisecond * time.Duration(watchdogScale())
 		e.emit(M{"ev": "skip", "op": "watchdog"})
 	case "it_count":
 		e.doItCount(op)
